@@ -42,10 +42,10 @@ def sink(n, bad=(), failcalls=(), k=0, pre_last=-1, pre_depth=0, pre_count=0):
 
 
 def job(n, batch, log=True, k=0, rerun=False, retries=0, delay=0, bad=(), failcalls=(), kill=-1, adds=(), crons=0,
-        timer=False):
+        timer=False, burst=0):
     return {"kind": "job", "n": n, "batch": batch, "log": log, "maxItems": k, "rerun": rerun, "maxRetries": retries,
             "retryDelay": delay, "bad": sorted(bad), "failcalls": sorted(failcalls), "killAt": kill, "adds": list(adds),
-            "crons": crons, "timer": timer}
+            "crons": crons, "timer": timer, "burst": burst}
 
 
 def witness_cases():
@@ -63,6 +63,13 @@ def witness_cases():
         job(6, 2, True, 0, True, 3, 0, bad=[1], kill=1),
         job(6, 3, False, 0, True, 2, 0, failcalls=[1], timer=True),
         sink(8, [2, 5], [], 0), sink(8, [2, 5], [], 2), sink(4, [], [0], 0, 7, 0, 0),
+        # a failing multi-entity page followed by clean pages: the outcome must still carry the error
+        job(10, 4, True, 0, True, 1, 0, bad=[2]), job(30, 10, True, 0, False, 0, 0, bad=[13, 17]),
+        # kill after a rejection, log + reRun: recorded as interrupted, no re-run
+        job(8, 2, True, 0, True, 2, 0, bad=[0], kill=3), job(9, 3, True, 0, True, 1, 0, bad=[1, 4], kill=5),
+        # further failing runs arrive while a re-run is pending: at most maxRetries re-executions in total
+        job(4, 100, False, 0, True, 1, 0, bad=[1], burst=2), job(4, 100, False, 0, True, 2, 0, bad=[1], burst=3),
+        job(6, 3, True, 0, True, 1, 0, bad=[2], burst=2),
     ]
 
 
@@ -104,9 +111,18 @@ def gen_job_random(rng, count, maxn):
         rerun = rng.chance(2, 3)
         bad = rand_subset(rng, tot, rng.choice([0, 1, 1, 2, 3]))
         fc = rand_subset(rng, 12, rng.choice([1, 2])) if rng.chance(1, 4) else []
-        kill = rng.range(0, 6) if rng.chance(1, 8) else -1
+        kill = rng.range(0, 8) if rng.chance(1, 6) else -1
         out.append(job(n, batch, log, rng.choice([0, 0, 0, 1, 2, 3, -2]), rerun, rng.choice([0, 1, 2, 3, -1]),
                        rng.choice([0, 1, 7]), bad, fc, kill, adds, rng.choice([0, 0, 1, 2])))
+    return out
+
+
+def gen_burst(rng, count):
+    out = []
+    for _ in range(count):
+        n = rng.range(2, 8)
+        out.append(job(n, rng.choice([2, 3, 100]), rng.chance(1, 2), 0, True, rng.choice([0, 1, 2, 3]), 0,
+                       bad=[rng.below(n)], burst=rng.range(2, 4)))
     return out
 
 
@@ -119,6 +135,7 @@ def gen(rng, tier):
                     out.append(sink(n, bad, [], k))
         out += gen_sink_random(rng, 150, 40)
         out += gen_job_random(rng, 220, 14)
+        out += gen_burst(rng, 2)
         return out
     if tier == "search":
         out += gen_sink_random(rng, 300, 64)
@@ -137,6 +154,7 @@ def gen(rng, tier):
             for b in (1, 2, 3, 100):
                 out.append(job(n, b, True, (len(bad) + n + b) % 3, True, 2, 0, bad, crons=1))
     out += gen_job_random(rng, 1500, 24)
+    out += gen_burst(rng, 12)
     return out
 
 
@@ -164,18 +182,19 @@ def evs(ev):
 def term(c, o):
     g = lambda k, d=0: c.get(k, d)
     runs = vlib.coq_list([
-        "{| or_err := %s; or_processed := %d; or_tok := %d; or_ev := %s; or_retries := %s; or_pending := %s |}" % (
+        "{| or_err := %s; or_processed := %d; or_tok := %d; or_ev := %s; or_retries := %s; or_pending := %s; or_killed := %s |}" % (
             vlib.zlit(-4 if r.get("panic") else r["err"]), r["processed"], r["token"], evs(r["ev"]),
-            vlib.zlit(r["retries"]), vlib.coq_bool(r["pending"])) for r in o.get("runs") or []])
+            vlib.zlit(r["retries"]), vlib.coq_bool(r["pending"]), vlib.coq_bool(r.get("killed", False)))
+        for r in o.get("runs") or []])
     return ("{| t_job := %s; t_n := %d; t_bad := %s; t_failcalls := %s; t_maxItems := %s; t_preLast := %s; t_preDepth := %d; "
             "t_preCount := %d; t_batch := %s; t_log := %s; t_rerun := %s; t_maxRetries := %s; t_retryDelay := %s; t_killAt := %s; "
-            "t_adds := %s; t_crons := %d; t_timer := %s; o_outcome := %d; o_res := %d; o_ev := %s; o_last := %s; o_lastSet := %s; o_depth := %s; "
+            "t_adds := %s; t_crons := %d; t_timer := %s; t_burst := %d; o_starts := %d; o_outcome := %d; o_res := %d; o_ev := %s; o_last := %s; o_lastSet := %s; o_depth := %s; "
             "o_count := %s; o_calls := %s; o_delay := %s; o_runs := %s; o_delayOk := %s |}" % (
                 vlib.coq_bool(c["kind"] == "job"), c["n"], zl(c["bad"]), zl(c["failcalls"]), vlib.zlit(c["maxItems"]),
                 vlib.zlit(g("preLast", -1)), g("preDepth"), g("preCount"), vlib.zlit(g("batch", 1)),
                 vlib.coq_bool(g("log", False)), vlib.coq_bool(g("rerun", False)), vlib.zlit(g("maxRetries")),
                 vlib.zlit(g("retryDelay")), vlib.zlit(g("killAt", -1)), zl(g("adds", [])), g("crons"),
-                vlib.coq_bool(g("timer", False)), 0 if o.get("outcome") == "ok" else 1, o.get("res", 9), evs(o.get("ev")),
+                vlib.coq_bool(g("timer", False)), g("burst"), o.get("starts", 0), 0 if o.get("outcome") == "ok" else 1, o.get("res", 9), evs(o.get("ev")),
                 vlib.zlit(o.get("last", -9)), vlib.coq_bool(o.get("lastSet", False)), vlib.zlit(o.get("depth", -1)), vlib.zlit(o.get("count", -1)),
                 vlib.zlit(o.get("calls", -1)), vlib.zlit(o.get("delay", -1)), runs,
                 vlib.coq_bool(o.get("delayOk", False) or c["kind"] != "job")))
@@ -193,21 +212,28 @@ def predict_text(c, o):
 
 
 def attribute(c, o):
-    """signature of the recorded findings: F17a = a run in which nothing was rejected is recorded as failed with an
-    inner-sink error; F17b = a run that rejected entities is recorded as ok"""
-    if c["kind"] != "job" or not c["log"] or c["failcalls"] or c["killAt"] >= 0:
+    """exact signatures of the recorded findings on the pinned tree (anything else that breaks the spec is NOT attributed):
+    F17a = a run that has nothing to read (token at the end of the feed) is recorded as failed with an inner-sink error;
+    F17b = a run below the limit is recorded as ok although it rejected entities, every page that contained a rejected
+           entity had length 1 (so recursionDepth stayed 0) and a non-empty healthy page came after the last of them"""
+    if c["kind"] != "job" or not c["log"] or c["failcalls"] or c["killAt"] >= 0 or c.get("burst"):
         return None
     bad = set(c["bad"])
     tok, n = 0, c["n"]
     adds = list(c["adds"])
     k = c["maxItems"] if c["maxItems"] > 0 else 0
-    for i, r in enumerate(o.get("runs") or []):
+    b = c["batch"] if c["batch"] >= 1 else 10000
+    for r in o.get("runs") or []:
         bads = [x for x in range(tok, n) if x in bad]
         reps = [e for e in r["ev"] if e[0] == 1]
-        if not bads and not reps and r["err"] >= 0:
+        if tok >= n and not reps and r["err"] >= 0:
             return "F17a"
         if bads and reps and not (k and len(bads) >= k) and r["err"] == -1:
-            return "F17b"
+            pages = [list(range(p, min(p + b, n))) for p in range(tok, n, b)]
+            badpages = [i for i, pg in enumerate(pages) if any(x in bad for x in pg)]
+            if all(len(pages[i]) == 1 for i in badpages) and badpages[-1] < len(pages) - 1:
+                return "F17b"
+            return None
         tok = r["token"]
         if adds:
             n += adds.pop(0)
@@ -230,7 +256,7 @@ def tags(c, o):
          "n=%s" % ("0-8" if c["n"] <= 8 else "9+"), "oracle=" + ("transient" if c["failcalls"] else "permanent")]
     if c["kind"] == "job":
         runs = o.get("runs") or []
-        t += ["runs=%d" % min(len(runs), 4), "log=%s" % c["log"], "rerun=%s" % c["rerun"],
+        t += ["burst=%s" % bool(c.get("burst")), "runs=%d" % min(len(runs), 4), "log=%s" % c["log"], "rerun=%s" % c["rerun"],
               "kill=%s" % (c["killAt"] >= 0), "batch=%s" % ("1" if c["batch"] == 1 else ">1")]
         for r in runs[:1]:
             t.append("first=" + {-1: "ok", -2: "max", -3: "interrupt", -4: "other", -5: "noresult"}.get(r["err"], "sinkerror"))
